@@ -7,6 +7,7 @@
 \*   EraseAtObserved -- seeded change C19: erase_at( iterator ) retries with the value it observed (mark stripped)
 EXTENDS Naturals, Sequences, FiniteSets, TLC
 CONSTANTS Procs, Prog, MaxNodes, KeyOf, FindPrevStrict, EraseAtObserved,
+          EarlyFindPrev,  \* seeded change C18b: link_data runs the find_prev re-check before it has marked the data pointers
           InitList        \* initial content: element ids in list order, 0 = an empty (erased) node
 NULL == 0
 HD == 1                       \* head sentinel
@@ -28,7 +29,7 @@ define {
 
 process (P \in Procs)
   variables i = 1, op = <<>>, prev = HD, cur = NULL, val = NULL, prevVal = NULL, found = NULL, hit = FALSE, wit = FALSE,
-            vc = D(NULL, 0), vp = D(NULL, 0), nn = NULL, fp = HD, fc = NULL, fv = NULL, itn = NULL, itv = NULL, obs = D(NULL, 0), ex = D(NULL, 0);
+            vc = D(NULL, 0), vp = D(NULL, 0), nn = NULL, fp = HD, fc = NULL, fv = NULL, early = FALSE, itn = NULL, itv = NULL, obs = D(NULL, 0), ex = D(NULL, 0);
 {
 L0: while (i <= Len(Prog[self])) {
       op := Prog[self][i];
@@ -42,10 +43,11 @@ S4:   prev := cur; prevVal := val; goto S1;
 OP:   if (op[1] = "ins" /\ hit) { ok := ok /\ wit; goto NX; }          \* insert fails: the key was present when its element was read (S3)
       else if (op[1] = "ins" \/ (op[1] = "upd" /\ ~hit)) {
         \* ---- link_data( &val, pos ) ----
+LD0:    if (EarlyFindPrev /\ prevVal = NULL) { early := TRUE; fp := HD; goto FP1; } else { early := FALSE; };
 LD1:    if (data[cur] = D(found, 0)) { data[cur] := D(found, 1); vc := D(found, 0); } else { goto S0; };
 LD2:    if (data[prev] = D(prevVal, 0)) { data[prev] := D(prevVal, 1); vp := D(prevVal, 0); } else { data[cur] := vc; goto S0; };
 LD3:    if (next[prev] # cur) { data[prev] := vp; goto LD9; };
-LD4:    if (prevVal = NULL) {
+LD4:    if (prevVal = NULL /\ ~EarlyFindPrev) {
           \* find_prev( head, key ): last node before the first non-empty node whose key is >= key (or before the tail)
           fp := HD;
 FP1:      fc := next[fp];
@@ -53,7 +55,8 @@ FP2:      if (next[fc] = fc) { goto LD5; };
 FP3:      fv := data[fc].p;
           if (fv # NULL /\ ((~FindPrevStrict /\ Key(fv) >= op[2]) \/ (FindPrevStrict /\ Key(fv) > op[2]))) { goto LD5; };
 FP4:      fp := fc; goto FP1;
-LD5:      if (fp # prev) { data[prev] := vp; goto LD9; };
+LD5:      if (early) { early := FALSE; if (fp # prev) { goto S0; } else { goto LD1; }; }
+          else if (fp # prev) { data[prev] := vp; goto LD9; };
         };
 LD6:    if (prev # HD /\ prevVal = NULL) {
           \* re-use the empty node pPrev
@@ -101,11 +104,11 @@ VARIABLES pc, next, data, alloc, abs, ok, retired
 Key(v) == KeyOf[v]
 
 VARIABLES i, op, prev, cur, val, prevVal, found, hit, wit, vc, vp, nn, fp, fc, 
-          fv, itn, itv, obs, ex
+          fv, early, itn, itv, obs, ex
 
 vars == << pc, next, data, alloc, abs, ok, retired, i, op, prev, cur, val, 
-           prevVal, found, hit, wit, vc, vp, nn, fp, fc, fv, itn, itv, obs, 
-           ex >>
+           prevVal, found, hit, wit, vc, vp, nn, fp, fc, fv, early, itn, itv, 
+           obs, ex >>
 
 ProcSet == (Procs)
 
@@ -133,6 +136,7 @@ Init == (* Global variables *)
         /\ fp = [self \in Procs |-> HD]
         /\ fc = [self \in Procs |-> NULL]
         /\ fv = [self \in Procs |-> NULL]
+        /\ early = [self \in Procs |-> FALSE]
         /\ itn = [self \in Procs |-> NULL]
         /\ itv = [self \in Procs |-> NULL]
         /\ obs = [self \in Procs |-> D(NULL, 0)]
@@ -147,22 +151,22 @@ L0(self) == /\ pc[self] = "L0"
                        /\ op' = op
             /\ UNCHANGED << next, data, alloc, abs, ok, retired, i, prev, cur, 
                             val, prevVal, found, hit, wit, vc, vp, nn, fp, fc, 
-                            fv, itn, itv, obs, ex >>
+                            fv, early, itn, itv, obs, ex >>
 
 S0(self) == /\ pc[self] = "S0"
             /\ prev' = [prev EXCEPT ![self] = HD]
             /\ prevVal' = [prevVal EXCEPT ![self] = NULL]
             /\ pc' = [pc EXCEPT ![self] = "S1"]
             /\ UNCHANGED << next, data, alloc, abs, ok, retired, i, op, cur, 
-                            val, found, hit, wit, vc, vp, nn, fp, fc, fv, itn, 
-                            itv, obs, ex >>
+                            val, found, hit, wit, vc, vp, nn, fp, fc, fv, 
+                            early, itn, itv, obs, ex >>
 
 S1(self) == /\ pc[self] = "S1"
             /\ cur' = [cur EXCEPT ![self] = next[prev[self]]]
             /\ pc' = [pc EXCEPT ![self] = "S2"]
             /\ UNCHANGED << next, data, alloc, abs, ok, retired, i, op, prev, 
                             val, prevVal, found, hit, wit, vc, vp, nn, fp, fc, 
-                            fv, itn, itv, obs, ex >>
+                            fv, early, itn, itv, obs, ex >>
 
 S2(self) == /\ pc[self] = "S2"
             /\ IF next[cur[self]] = cur[self]
@@ -173,7 +177,7 @@ S2(self) == /\ pc[self] = "S2"
                        /\ UNCHANGED << found, hit >>
             /\ UNCHANGED << next, data, alloc, abs, ok, retired, i, op, prev, 
                             cur, val, prevVal, wit, vc, vp, nn, fp, fc, fv, 
-                            itn, itv, obs, ex >>
+                            early, itn, itv, obs, ex >>
 
 S3(self) == /\ pc[self] = "S3"
             /\ val' = [val EXCEPT ![self] = data[cur[self]].p]
@@ -185,23 +189,23 @@ S3(self) == /\ pc[self] = "S3"
                   ELSE /\ pc' = [pc EXCEPT ![self] = "S4"]
                        /\ UNCHANGED << found, hit, wit >>
             /\ UNCHANGED << next, data, alloc, abs, ok, retired, i, op, prev, 
-                            cur, prevVal, vc, vp, nn, fp, fc, fv, itn, itv, 
-                            obs, ex >>
+                            cur, prevVal, vc, vp, nn, fp, fc, fv, early, itn, 
+                            itv, obs, ex >>
 
 S4(self) == /\ pc[self] = "S4"
             /\ prev' = [prev EXCEPT ![self] = cur[self]]
             /\ prevVal' = [prevVal EXCEPT ![self] = val[self]]
             /\ pc' = [pc EXCEPT ![self] = "S1"]
             /\ UNCHANGED << next, data, alloc, abs, ok, retired, i, op, cur, 
-                            val, found, hit, wit, vc, vp, nn, fp, fc, fv, itn, 
-                            itv, obs, ex >>
+                            val, found, hit, wit, vc, vp, nn, fp, fc, fv, 
+                            early, itn, itv, obs, ex >>
 
 OP(self) == /\ pc[self] = "OP"
             /\ IF op[self][1] = "ins" /\ hit[self]
                   THEN /\ ok' = (ok /\ wit[self])
                        /\ pc' = [pc EXCEPT ![self] = "NX"]
                   ELSE /\ IF op[self][1] = "ins" \/ (op[self][1] = "upd" /\ ~hit[self])
-                             THEN /\ pc' = [pc EXCEPT ![self] = "LD1"]
+                             THEN /\ pc' = [pc EXCEPT ![self] = "LD0"]
                                   /\ ok' = ok
                              ELSE /\ IF op[self][1] = "upd"
                                         THEN /\ pc' = [pc EXCEPT ![self] = "UP1"]
@@ -218,7 +222,19 @@ OP(self) == /\ pc[self] = "OP"
                                                         /\ ok' = ok
             /\ UNCHANGED << next, data, alloc, abs, retired, i, op, prev, cur, 
                             val, prevVal, found, hit, wit, vc, vp, nn, fp, fc, 
-                            fv, itn, itv, obs, ex >>
+                            fv, early, itn, itv, obs, ex >>
+
+LD0(self) == /\ pc[self] = "LD0"
+             /\ IF EarlyFindPrev /\ prevVal[self] = NULL
+                   THEN /\ early' = [early EXCEPT ![self] = TRUE]
+                        /\ fp' = [fp EXCEPT ![self] = HD]
+                        /\ pc' = [pc EXCEPT ![self] = "FP1"]
+                   ELSE /\ early' = [early EXCEPT ![self] = FALSE]
+                        /\ pc' = [pc EXCEPT ![self] = "LD1"]
+                        /\ fp' = fp
+             /\ UNCHANGED << next, data, alloc, abs, ok, retired, i, op, prev, 
+                             cur, val, prevVal, found, hit, wit, vc, vp, nn, 
+                             fc, fv, itn, itv, obs, ex >>
 
 LD1(self) == /\ pc[self] = "LD1"
              /\ IF data[cur[self]] = D(found[self], 0)
@@ -229,7 +245,7 @@ LD1(self) == /\ pc[self] = "LD1"
                         /\ UNCHANGED << data, vc >>
              /\ UNCHANGED << next, alloc, abs, ok, retired, i, op, prev, cur, 
                              val, prevVal, found, hit, wit, vp, nn, fp, fc, fv, 
-                             itn, itv, obs, ex >>
+                             early, itn, itv, obs, ex >>
 
 LD2(self) == /\ pc[self] = "LD2"
              /\ IF data[prev[self]] = D(prevVal[self], 0)
@@ -241,7 +257,7 @@ LD2(self) == /\ pc[self] = "LD2"
                         /\ vp' = vp
              /\ UNCHANGED << next, alloc, abs, ok, retired, i, op, prev, cur, 
                              val, prevVal, found, hit, wit, vc, nn, fp, fc, fv, 
-                             itn, itv, obs, ex >>
+                             early, itn, itv, obs, ex >>
 
 LD3(self) == /\ pc[self] = "LD3"
              /\ IF next[prev[self]] # cur[self]
@@ -251,24 +267,24 @@ LD3(self) == /\ pc[self] = "LD3"
                         /\ data' = data
              /\ UNCHANGED << next, alloc, abs, ok, retired, i, op, prev, cur, 
                              val, prevVal, found, hit, wit, vc, vp, nn, fp, fc, 
-                             fv, itn, itv, obs, ex >>
+                             fv, early, itn, itv, obs, ex >>
 
 LD4(self) == /\ pc[self] = "LD4"
-             /\ IF prevVal[self] = NULL
+             /\ IF prevVal[self] = NULL /\ ~EarlyFindPrev
                    THEN /\ fp' = [fp EXCEPT ![self] = HD]
                         /\ pc' = [pc EXCEPT ![self] = "FP1"]
                    ELSE /\ pc' = [pc EXCEPT ![self] = "LD6"]
                         /\ fp' = fp
              /\ UNCHANGED << next, data, alloc, abs, ok, retired, i, op, prev, 
                              cur, val, prevVal, found, hit, wit, vc, vp, nn, 
-                             fc, fv, itn, itv, obs, ex >>
+                             fc, fv, early, itn, itv, obs, ex >>
 
 FP1(self) == /\ pc[self] = "FP1"
              /\ fc' = [fc EXCEPT ![self] = next[fp[self]]]
              /\ pc' = [pc EXCEPT ![self] = "FP2"]
              /\ UNCHANGED << next, data, alloc, abs, ok, retired, i, op, prev, 
                              cur, val, prevVal, found, hit, wit, vc, vp, nn, 
-                             fp, fv, itn, itv, obs, ex >>
+                             fp, fv, early, itn, itv, obs, ex >>
 
 FP2(self) == /\ pc[self] = "FP2"
              /\ IF next[fc[self]] = fc[self]
@@ -276,7 +292,7 @@ FP2(self) == /\ pc[self] = "FP2"
                    ELSE /\ pc' = [pc EXCEPT ![self] = "FP3"]
              /\ UNCHANGED << next, data, alloc, abs, ok, retired, i, op, prev, 
                              cur, val, prevVal, found, hit, wit, vc, vp, nn, 
-                             fp, fc, fv, itn, itv, obs, ex >>
+                             fp, fc, fv, early, itn, itv, obs, ex >>
 
 FP3(self) == /\ pc[self] = "FP3"
              /\ fv' = [fv EXCEPT ![self] = data[fc[self]].p]
@@ -285,21 +301,28 @@ FP3(self) == /\ pc[self] = "FP3"
                    ELSE /\ pc' = [pc EXCEPT ![self] = "FP4"]
              /\ UNCHANGED << next, data, alloc, abs, ok, retired, i, op, prev, 
                              cur, val, prevVal, found, hit, wit, vc, vp, nn, 
-                             fp, fc, itn, itv, obs, ex >>
+                             fp, fc, early, itn, itv, obs, ex >>
 
 FP4(self) == /\ pc[self] = "FP4"
              /\ fp' = [fp EXCEPT ![self] = fc[self]]
              /\ pc' = [pc EXCEPT ![self] = "FP1"]
              /\ UNCHANGED << next, data, alloc, abs, ok, retired, i, op, prev, 
                              cur, val, prevVal, found, hit, wit, vc, vp, nn, 
-                             fc, fv, itn, itv, obs, ex >>
+                             fc, fv, early, itn, itv, obs, ex >>
 
 LD5(self) == /\ pc[self] = "LD5"
-             /\ IF fp[self] # prev[self]
-                   THEN /\ data' = [data EXCEPT ![prev[self]] = vp[self]]
-                        /\ pc' = [pc EXCEPT ![self] = "LD9"]
-                   ELSE /\ pc' = [pc EXCEPT ![self] = "LD6"]
+             /\ IF early[self]
+                   THEN /\ early' = [early EXCEPT ![self] = FALSE]
+                        /\ IF fp[self] # prev[self]
+                              THEN /\ pc' = [pc EXCEPT ![self] = "S0"]
+                              ELSE /\ pc' = [pc EXCEPT ![self] = "LD1"]
                         /\ data' = data
+                   ELSE /\ IF fp[self] # prev[self]
+                              THEN /\ data' = [data EXCEPT ![prev[self]] = vp[self]]
+                                   /\ pc' = [pc EXCEPT ![self] = "LD9"]
+                              ELSE /\ pc' = [pc EXCEPT ![self] = "LD6"]
+                                   /\ data' = data
+                        /\ early' = early
              /\ UNCHANGED << next, alloc, abs, ok, retired, i, op, prev, cur, 
                              val, prevVal, found, hit, wit, vc, vp, nn, fp, fc, 
                              fv, itn, itv, obs, ex >>
@@ -322,7 +345,7 @@ LD6(self) == /\ pc[self] = "LD6"
                         /\ pc' = [pc EXCEPT ![self] = "LD8"]
                         /\ UNCHANGED << abs, ok, hit >>
              /\ UNCHANGED << retired, i, op, prev, cur, val, prevVal, found, 
-                             wit, vc, vp, fp, fc, fv, itn, itv, obs, ex >>
+                             wit, vc, vp, fp, fc, fv, early, itn, itv, obs, ex >>
 
 LD7(self) == /\ pc[self] = "LD7"
              /\ data' = [data EXCEPT ![cur[self]] = vc[self]]
@@ -331,7 +354,7 @@ LD7(self) == /\ pc[self] = "LD7"
                    ELSE /\ pc' = [pc EXCEPT ![self] = "S0"]
              /\ UNCHANGED << next, alloc, abs, ok, retired, i, op, prev, cur, 
                              val, prevVal, found, hit, wit, vc, vp, nn, fp, fc, 
-                             fv, itn, itv, obs, ex >>
+                             fv, early, itn, itv, obs, ex >>
 
 LD8(self) == /\ pc[self] = "LD8"
              /\ IF next[prev[self]] = cur[self]
@@ -343,15 +366,15 @@ LD8(self) == /\ pc[self] = "LD8"
                         /\ UNCHANGED << next, abs, ok >>
              /\ pc' = [pc EXCEPT ![self] = "LD8a"]
              /\ UNCHANGED << data, alloc, retired, i, op, prev, cur, val, 
-                             prevVal, found, wit, vc, vp, nn, fp, fc, fv, itn, 
-                             itv, obs, ex >>
+                             prevVal, found, wit, vc, vp, nn, fp, fc, fv, 
+                             early, itn, itv, obs, ex >>
 
 LD8a(self) == /\ pc[self] = "LD8a"
               /\ data' = [data EXCEPT ![prev[self]] = vp[self]]
               /\ pc' = [pc EXCEPT ![self] = "LD8b"]
               /\ UNCHANGED << next, alloc, abs, ok, retired, i, op, prev, cur, 
                               val, prevVal, found, hit, wit, vc, vp, nn, fp, 
-                              fc, fv, itn, itv, obs, ex >>
+                              fc, fv, early, itn, itv, obs, ex >>
 
 LD8b(self) == /\ pc[self] = "LD8b"
               /\ data' = [data EXCEPT ![cur[self]] = vc[self]]
@@ -360,14 +383,14 @@ LD8b(self) == /\ pc[self] = "LD8b"
                     ELSE /\ pc' = [pc EXCEPT ![self] = "S0"]
               /\ UNCHANGED << next, alloc, abs, ok, retired, i, op, prev, cur, 
                               val, prevVal, found, hit, wit, vc, vp, nn, fp, 
-                              fc, fv, itn, itv, obs, ex >>
+                              fc, fv, early, itn, itv, obs, ex >>
 
 LD9(self) == /\ pc[self] = "LD9"
              /\ data' = [data EXCEPT ![cur[self]] = vc[self]]
              /\ pc' = [pc EXCEPT ![self] = "S0"]
              /\ UNCHANGED << next, alloc, abs, ok, retired, i, op, prev, cur, 
                              val, prevVal, found, hit, wit, vc, vp, nn, fp, fc, 
-                             fv, itn, itv, obs, ex >>
+                             fv, early, itn, itv, obs, ex >>
 
 UP1(self) == /\ pc[self] = "UP1"
              /\ IF data[cur[self]] = D(found[self], 0)
@@ -379,8 +402,8 @@ UP1(self) == /\ pc[self] = "UP1"
                    ELSE /\ pc' = [pc EXCEPT ![self] = "S0"]
                         /\ UNCHANGED << data, abs, ok, retired >>
              /\ UNCHANGED << next, alloc, i, op, prev, cur, val, prevVal, 
-                             found, hit, wit, vc, vp, nn, fp, fc, fv, itn, itv, 
-                             obs, ex >>
+                             found, hit, wit, vc, vp, nn, fp, fc, fv, early, 
+                             itn, itv, obs, ex >>
 
 ER1(self) == /\ pc[self] = "ER1"
              /\ IF data[cur[self]] = D(found[self], 0)
@@ -392,8 +415,8 @@ ER1(self) == /\ pc[self] = "ER1"
                    ELSE /\ pc' = [pc EXCEPT ![self] = "S0"]
                         /\ UNCHANGED << data, abs, ok, retired >>
              /\ UNCHANGED << next, alloc, i, op, prev, cur, val, prevVal, 
-                             found, hit, wit, vc, vp, nn, fp, fc, fv, itn, itv, 
-                             obs, ex >>
+                             found, hit, wit, vc, vp, nn, fp, fc, fv, early, 
+                             itn, itv, obs, ex >>
 
 EA(self) == /\ pc[self] = "EA"
             /\ itn' = [itn EXCEPT ![self] = cur[self]]
@@ -401,14 +424,14 @@ EA(self) == /\ pc[self] = "EA"
             /\ pc' = [pc EXCEPT ![self] = "EA0"]
             /\ UNCHANGED << next, data, alloc, abs, ok, retired, i, op, prev, 
                             cur, val, prevVal, found, hit, wit, vc, vp, nn, fp, 
-                            fc, fv, obs, ex >>
+                            fc, fv, early, obs, ex >>
 
 EA0(self) == /\ pc[self] = "EA0"
              /\ ex' = [ex EXCEPT ![self] = D(itv[self], 0)]
              /\ pc' = [pc EXCEPT ![self] = "EA1"]
              /\ UNCHANGED << next, data, alloc, abs, ok, retired, i, op, prev, 
                              cur, val, prevVal, found, hit, wit, vc, vp, nn, 
-                             fp, fc, fv, itn, itv, obs >>
+                             fp, fc, fv, early, itn, itv, obs >>
 
 EA1(self) == /\ pc[self] = "EA1"
              /\ IF data[itn[self]] = ex[self]
@@ -422,8 +445,8 @@ EA1(self) == /\ pc[self] = "EA1"
                         /\ pc' = [pc EXCEPT ![self] = "EA2"]
                         /\ UNCHANGED << data, abs, ok, retired >>
              /\ UNCHANGED << next, alloc, i, op, prev, cur, val, prevVal, 
-                             found, hit, wit, vc, vp, nn, fp, fc, fv, itn, itv, 
-                             ex >>
+                             found, hit, wit, vc, vp, nn, fp, fc, fv, early, 
+                             itn, itv, ex >>
 
 EA2(self) == /\ pc[self] = "EA2"
              /\ IF ~EraseAtObserved
@@ -438,22 +461,23 @@ EA2(self) == /\ pc[self] = "EA2"
                                    /\ pc' = [pc EXCEPT ![self] = "EA1"]
              /\ UNCHANGED << next, data, alloc, abs, ok, retired, i, op, prev, 
                              cur, val, prevVal, found, hit, wit, vc, vp, nn, 
-                             fp, fc, fv, itn, itv, obs >>
+                             fp, fc, fv, early, itn, itv, obs >>
 
 NX(self) == /\ pc[self] = "NX"
             /\ i' = [i EXCEPT ![self] = i[self] + 1]
             /\ pc' = [pc EXCEPT ![self] = "L0"]
             /\ UNCHANGED << next, data, alloc, abs, ok, retired, op, prev, cur, 
                             val, prevVal, found, hit, wit, vc, vp, nn, fp, fc, 
-                            fv, itn, itv, obs, ex >>
+                            fv, early, itn, itv, obs, ex >>
 
 P(self) == L0(self) \/ S0(self) \/ S1(self) \/ S2(self) \/ S3(self)
-              \/ S4(self) \/ OP(self) \/ LD1(self) \/ LD2(self)
-              \/ LD3(self) \/ LD4(self) \/ FP1(self) \/ FP2(self)
-              \/ FP3(self) \/ FP4(self) \/ LD5(self) \/ LD6(self)
-              \/ LD7(self) \/ LD8(self) \/ LD8a(self) \/ LD8b(self)
-              \/ LD9(self) \/ UP1(self) \/ ER1(self) \/ EA(self)
-              \/ EA0(self) \/ EA1(self) \/ EA2(self) \/ NX(self)
+              \/ S4(self) \/ OP(self) \/ LD0(self) \/ LD1(self)
+              \/ LD2(self) \/ LD3(self) \/ LD4(self) \/ FP1(self)
+              \/ FP2(self) \/ FP3(self) \/ FP4(self) \/ LD5(self)
+              \/ LD6(self) \/ LD7(self) \/ LD8(self) \/ LD8a(self)
+              \/ LD8b(self) \/ LD9(self) \/ UP1(self) \/ ER1(self)
+              \/ EA(self) \/ EA0(self) \/ EA1(self) \/ EA2(self)
+              \/ NX(self)
 
 (* Allow infinite stuttering to prevent deadlock on termination. *)
 Terminating == /\ \A self \in ProcSet: pc[self] = "Done"
